@@ -90,6 +90,17 @@ pub fn sfs_env(ctx: &Ctx, args: &[&str], stdin: Option<&[u8]>, env: &[(&str, &st
     for (k, v) in env {
         cmd.env(k, v);
     }
+    // safety net for the sandbox, far above anything a scenario needs: 24 GiB of address space, 300 s of CPU
+    unsafe {
+        use std::os::unix::process::CommandExt;
+        cmd.pre_exec(|| {
+            let r = libc::rlimit { rlim_cur: 24 << 30, rlim_max: 24 << 30 };
+            libc::setrlimit(libc::RLIMIT_AS, &r);
+            let c = libc::rlimit { rlim_cur: 300, rlim_max: 300 };
+            libc::setrlimit(libc::RLIMIT_CPU, &c);
+            Ok(())
+        });
+    }
     let mut child = cmd.spawn().unwrap_or_else(|e| panic!("cannot run {}: {e}", ctx.sfs_bin));
     if let Some(bytes) = stdin {
         let mut si = child.stdin.take().unwrap();
@@ -210,4 +221,41 @@ pub fn scratch(ctx: &Ctx, name: &str, bytes: &[u8]) -> String {
     let path = format!("{dir}/{name}");
     std::fs::write(&path, bytes).expect("write scratch");
     path
+}
+
+/// Run the binary with a sink that FAILS AT A CHOSEN BYTE OFFSET: the output goes to a regular file (stdout redirected to it,
+/// or `-o <file>` when `via_stdout` is false) under RLIMIT_FSIZE = `limit` with SIGXFSZ ignored, so the write crossing
+/// `limit` is cut short and every later write fails with EFBIG.  `limit` None = no failure.  Returns the run and the
+/// bytes that reached the file.
+pub fn sfs_fsize(ctx: &Ctx, args: &[&str], stdin: &[u8], limit: Option<u64>, out_path: &str, via_stdout: bool) -> (Run, Vec<u8>) {
+    use std::os::unix::process::CommandExt;
+    let _ = std::fs::remove_file(out_path);
+    let mut cmd = Command::new(&ctx.sfs_bin);
+    cmd.args(args).env("SFS_ALLOW_STDIN", "1").env_remove("RUST_BACKTRACE").env_remove("RUST_LOG")
+        .stderr(Stdio::piped()).stdin(Stdio::piped());
+    if via_stdout {
+        cmd.stdout(std::fs::File::create(out_path).expect("create sink"));
+    } else {
+        cmd.args(["-o", out_path]).stdout(Stdio::piped());
+    }
+    if let Some(l) = limit {
+        unsafe {
+            cmd.pre_exec(move || {
+                libc::signal(libc::SIGXFSZ, libc::SIG_IGN);
+                let r = libc::rlimit { rlim_cur: l as libc::rlim_t, rlim_max: l as libc::rlim_t };
+                if libc::setrlimit(libc::RLIMIT_FSIZE, &r) != 0 {
+                    return Err(std::io::Error::last_os_error());
+                }
+                Ok(())
+            });
+        }
+    }
+    let mut child = cmd.spawn().unwrap_or_else(|e| panic!("cannot run {}: {e}", ctx.sfs_bin));
+    let mut si = child.stdin.take().unwrap();
+    let bytes = stdin.to_vec();
+    std::thread::spawn(move || { let _ = si.write_all(&bytes); });
+    let out = child.wait_with_output().expect("wait");
+    let written = std::fs::read(out_path).unwrap_or_default();
+    let _ = std::fs::remove_file(out_path);
+    (Run { code: out.status.code(), stdout: out.stdout, stderr: String::from_utf8_lossy(&out.stderr).into_owned() }, written)
 }
